@@ -4,6 +4,7 @@ import (
 	"fmt"
 	"go/token"
 	"path/filepath"
+	"sort"
 	"strings"
 
 	"pgoverif/checker/an"
@@ -40,6 +41,10 @@ type specRow struct {
 	absent bool
 	// among: every statement matching the effect pattern assigns one of these right-hand sides
 	among []string
+	// labels: the row is about the unit's set of labels (its critical sections): exactly these
+	labels []string
+	// graph: label -> labels its section can hand over to (goto targets, Done included); implies the label set
+	graph map[string][]string
 }
 
 func init() {
@@ -100,6 +105,10 @@ func runSpecRows(c *core.Ctx, rule string) {
 		key := r.pair + "/"
 		if r.op != "" {
 			key += "operator " + r.op
+		} else if r.graph != nil {
+			key += r.unit + ":label-graph"
+		} else if len(r.labels) > 0 {
+			key += r.unit + ":labels"
 		} else {
 			key += r.unit + "." + r.label + ":" + r.key
 		}
@@ -124,6 +133,61 @@ func runSpecRows(c *core.Ctx, rule string) {
 			default:
 				c.Bad(key, p, "%s (line %d of the specification): %s — %s", r.op, d.Line, r.why, detail)
 			}
+			continue
+		}
+		if r.graph != nil {
+			got, err := v.LabelGraph(r.unit)
+			if err != nil {
+				c.Lost(key, "%v", err)
+				continue
+			}
+			render := func(g map[string][]string) string {
+				var ls []string
+				for l := range g {
+					ls = append(ls, l)
+				}
+				sort.Strings(ls)
+				var parts []string
+				for _, l := range ls {
+					ts := append([]string(nil), g[l]...)
+					sort.Strings(ts)
+					parts = append(parts, l+"->"+strings.Join(ts, ","))
+				}
+				return strings.Join(parts, " ")
+			}
+			a, b := render(got), render(r.graph)
+			detail := ""
+			if a != b {
+				for l, ts := range r.graph {
+					g2, has := got[l]
+					sort.Strings(ts)
+					sort.Strings(g2)
+					if !has {
+						detail += " label " + l + " is missing;"
+					} else if strings.Join(ts, ",") != strings.Join(g2, ",") {
+						detail += " " + l + " hands over to [" + strings.Join(g2, ",") + "], the table [" + strings.Join(ts, ",") + "];"
+					}
+				}
+				for l := range got {
+					if _, has := r.graph[l]; !has {
+						detail += " label " + l + " is not in the table (a statement that moved to a label of its own is no longer atomic with its neighbours);"
+					}
+				}
+			}
+			c.Check(a == b, key, p, "labels and hand-overs of "+r.unit+" are as tabled", fmt.Sprintf("%s — %s of %s:%s", r.why, r.unit, r.pair, detail))
+			continue
+		}
+		if len(r.labels) > 0 {
+			got, err := v.Labels(r.unit)
+			if err != nil {
+				c.Lost(key, "%v", err)
+				continue
+			}
+			want := append([]string(nil), r.labels...)
+			sort.Strings(want)
+			sort.Strings(got)
+			c.Check(strings.Join(got, " ") == strings.Join(want, " "), key, p, "the critical sections of "+r.unit+" are "+strings.Join(want, ", "),
+				fmt.Sprintf("%s — %s of %s has the labels [%s], the table [%s]: a statement that moved to a label of its own is no longer atomic with its neighbours (and two labels merged hide an interleaving the protocol was checked with)", r.why, r.unit, r.pair, strings.Join(got, " "), strings.Join(want, " ")))
 			continue
 		}
 		sec, err := v.Section(r.unit, r.label)
